@@ -49,17 +49,17 @@ func firstLine(b []byte) string {
 
 // Cmd is an abstract command: what the model needs to know plus the wire form.
 type Cmd struct {
-	Name    string `json:"name"`
-	Op      string `json:"op"`             // HELLO MAIL RCPT DATA BDAT RSET NOOP VRFY HELP BAD AUTH STARTTLS QUIT
-	Verb    string `json:"verb,omitempty"` // HELLO: EHLO|HELO|LHLO
-	Arg     string `json:"arg,omitempty"`  // hello name, address, SASL mechanism
-	Bad     string `json:"bad,omitempty"`  // syntax | sizeover | unknownparam | noarg | arg | badsize | badlast | toomany | overlimit
-	Binmime bool   `json:"binmime,omitempty"`
-	Body    []byte `json:"body,omitempty"` // DATA: message as the backend must see it
-	Size    int    `json:"size,omitempty"`
-	Last    bool   `json:"last,omitempty"`
-	Payload []byte `json:"payload,omitempty"`
-	Auth    string `json:"auth,omitempty"` // ok | fail | cancel | badb64 | noarg
+	Name    string      `json:"name"`
+	Op      string      `json:"op"`             // HELLO MAIL RCPT DATA BDAT RSET NOOP VRFY HELP BAD AUTH STARTTLS QUIT
+	Verb    string      `json:"verb,omitempty"` // HELLO: EHLO|HELO|LHLO
+	Arg     string      `json:"arg,omitempty"`  // hello name, address, SASL mechanism
+	Bad     string      `json:"bad,omitempty"`  // syntax | sizeover | unknownparam | noarg | arg | badsize | badlast | toomany | overlimit
+	Binmime bool        `json:"binmime,omitempty"`
+	Body    []byte      `json:"body,omitempty"` // DATA: message as the backend must see it
+	Size    int         `json:"size,omitempty"`
+	Last    bool        `json:"last,omitempty"`
+	Payload []byte      `json:"payload,omitempty"`
+	AuthS   *AuthScript `json:"auth_script,omitempty"` // AUTH: the exchange (nil: AUTH without argument)
 	// Steps is the wire form. Step k>0 is sent only if the last reply to
 	// step k-1 was 3xx (DATA's message after 354, AUTH responses after 334).
 	Steps [][]byte `json:"steps"`
@@ -133,6 +133,9 @@ type Alt struct {
 	// ("positive exactly when the backend accepted that very message").
 	MsgVerdict string // "" | accept | reject
 	MsgText    string // text the negative reply must carry
+	// for a 334 reply: the challenge octets it must carry
+	Challenge    []byte
+	HasChallenge bool
 }
 
 // StepExp lists the acceptable behaviours of one wire step.
@@ -472,7 +475,101 @@ func Step(cfg PConfig, s PState, c Cmd, k int) StepExp {
 // AuthPermitted: AUTH may be used in state s.
 func AuthPermitted(cfg PConfig, s PState) bool { return s.TLS || cfg.AllowInsecureAuth }
 
+// AuthResp is one line the client sends during an AUTH exchange.
+type AuthResp struct {
+	Wire    string `json:"wire"`              // the line (without CRLF); for the initial response the token after the mechanism
+	Decoded []byte `json:"decoded,omitempty"` // what it decodes to (nil for an absent initial response)
+	Absent  bool   `json:"absent,omitempty"`  // initial response only: not given
+	Bad     bool   `json:"bad,omitempty"`     // not valid base64
+	Cancel  bool   `json:"cancel,omitempty"`  // "*"
+}
+
+// AuthScript describes a whole AUTH exchange from the client's side against
+// the harness' step mechanisms: N rounds (0: unknown mechanism), challenge
+// number i is Chal(i), the last response must be "good".
+type AuthScript struct {
+	Mech  string     `json:"mech"` // as written on the wire
+	N     int        `json:"n"`    // rounds of the mechanism; 0 = the backend does not know it
+	Chal  string     `json:"chal"` // text | empty | binary
+	IR    AuthResp   `json:"ir"`
+	Resps []AuthResp `json:"resps"` // responses to the 334 challenges, in order
+}
+
+// Challenge returns challenge number i of the scripted mechanism.
+func (a *AuthScript) Challenge(i int) []byte {
+	switch a.Chal {
+	case "empty":
+		return []byte{}
+	case "binary":
+		return []byte{0, 0xff, 0xfe, '\r', '\n'}
+	}
+	return []byte(fmt.Sprintf("chal%d", i))
+}
+
+// feed simulates the step mechanism: i = responses counted so far.
+// It returns the new i and what happens: "challenge" | "success" | "failure".
+func (a *AuthScript) feed(i int, resp []byte, isNil bool) (int, string) {
+	if isNil && i == 0 {
+		return 0, "challenge"
+	}
+	i++
+	if i < a.N {
+		return i, "challenge"
+	}
+	if string(resp) == "good" {
+		return i, "success"
+	}
+	return i, "failure"
+}
+
+func nextArg(b []byte, isNil bool) string {
+	if isNil {
+		return "nil"
+	}
+	return fmt.Sprintf("%q", b)
+}
+
+// AuthChallengeNo: which challenge does the server send in answer to step k
+// (k=0: the AUTH line, k>=1: response k)? -1 if none.
+func (a *AuthScript) walk(k int) (i int, asked int, outcome string, args []string) {
+	// replays steps 0..k, returns the mechanism counter after step k and the outcome of step k
+	i = 0
+	asked = 0 // number of challenges sent so far
+	for step := 0; step <= k; step++ {
+		var r AuthResp
+		if step == 0 {
+			r = a.IR
+		} else {
+			if step-1 >= len(a.Resps) {
+				return i, asked, "none", args
+			}
+			r = a.Resps[step-1]
+		}
+		if r.Cancel {
+			return i, asked, "cancel", args
+		}
+		if r.Bad {
+			return i, asked, "bad", args
+		}
+		var out string
+		isNil := step == 0 && r.Absent
+		i, out = a.feed(i, r.Decoded, isNil)
+		if step == k {
+			args = []string{nextArg(r.Decoded, isNil)}
+		}
+		if out != "challenge" {
+			return i, asked, out, args
+		}
+		if step == k {
+			return i, asked, "challenge", args
+		}
+		asked++
+	}
+	return i, asked, "none", args
+}
+
 func authStep(cfg PConfig, s PState, c Cmd, k int) StepExp {
+	a := c.AuthS
 	if k == 0 {
 		if !s.Sess {
 			return refuse(s)
@@ -480,30 +577,44 @@ func authStep(cfg PConfig, s PState, c Cmd, k int) StepExp {
 		if s.Authed {
 			return refuse(s, code(503))
 		}
-		if c.Auth == "noarg" {
-			return refuse(s)
+		if a == nil {
+			return refuse(s) // AUTH without argument
 		}
 		if !AuthPermitted(cfg, s) {
 			return refuse(s) // 523 in the implementation; the statement fixes "not accepted"
 		}
-		if c.Auth == "badb64" {
+		if a.IR.Bad {
 			return StepExp{Alts: []Alt{{Replies: []RExp{class(4, 5)}, Calls: []Call{{Kind: "Auth", Optional: true}}, Next: s}}}
 		}
 		if !cfg.AuthBackend {
 			return refuse(s, class(4, 5))
 		}
-		auth := Call{Kind: "Auth", Arg: c.Arg}
-		switch c.Auth {
-		case "ok":
-			n := s.clone()
-			n.Authed = true
-			return StepExp{Alts: []Alt{{Replies: []RExp{code(235)}, Calls: []Call{auth, {Kind: "Next", Arg: `"good"`}}, Next: n}}}
-		case "fail":
-			return StepExp{Alts: []Alt{{Replies: []RExp{class(4, 5)}, Calls: []Call{auth, {Kind: "Next", Arg: `"bad"`}}, Next: s}}}
-		case "cancel":
-			return StepExp{Alts: []Alt{{Replies: []RExp{code(334)}, Calls: []Call{auth, {Kind: "Next", Arg: "nil"}}, Next: s}}}
+		if a.N == 0 {
+			return StepExp{Alts: []Alt{{Replies: []RExp{class(4, 5)}, Calls: []Call{{Kind: "Auth", Arg: strings.ToUpper(a.Mech)}}, Next: s}}}
 		}
 	}
-	// k == 1: "*" after a 334
-	return StepExp{Alts: []Alt{{Replies: []RExp{code(501)}, Next: s}}}
+	ci, _, outcome, args := a.walk(k)
+	var calls []Call
+	if k == 0 {
+		calls = append(calls, Call{Kind: "Auth", Arg: strings.ToUpper(a.Mech)})
+	}
+	for _, x := range args {
+		calls = append(calls, Call{Kind: "Next", Arg: x})
+	}
+	switch outcome {
+	case "cancel":
+		return StepExp{Alts: []Alt{{Replies: []RExp{code(501)}, Calls: calls, Next: s}}}
+	case "bad":
+		return StepExp{Alts: []Alt{{Replies: []RExp{class(4, 5)}, Calls: calls, Next: s}}}
+	case "challenge":
+		return StepExp{Alts: []Alt{{Replies: []RExp{code(334)}, Calls: calls, Next: s, Challenge: a.Challenge(ci), HasChallenge: true}}}
+	case "success":
+		n := s.clone()
+		n.Authed = true
+		return StepExp{Alts: []Alt{{Replies: []RExp{code(235)}, Calls: calls, Next: n}}}
+	case "failure":
+		return StepExp{Alts: []Alt{{Replies: []RExp{class(4, 5)}, Calls: calls, Next: s}}}
+	}
+	// the script has no line for this step: nothing is sent, nothing expected
+	return StepExp{Alts: []Alt{{Next: s}}}
 }
